@@ -42,26 +42,31 @@ func (d *ManyToOne) Set(data GenericDataType) {
 	for {
 		writeIndex := atomic.AddUint64(&d.writeIndex, 1)
 		idx := writeIndex % uint64(len(d.buffer))
-		old := atomic.LoadPointer(&d.buffer[idx])
-
-		if old != nil &&
-			(*bucket)(old) != nil &&
-			(*bucket)(old).seq+uint64(len(d.buffer)) > writeIndex {
-			log.Println("Diode set collision: consider using a larger diode")
-			continue
-		}
-
 		newBucket := &bucket{
 			data: data,
 			seq:  writeIndex,
 		}
 
-		if !atomic.CompareAndSwapPointer(&d.buffer[idx], old, unsafe.Pointer(newBucket)) {
-			log.Println("Diode set collision: consider using a larger diode")
-			continue
+		for {
+			old := atomic.LoadPointer(&d.buffer[idx])
+
+			if old != nil &&
+				(*bucket)(old) != nil &&
+				(*bucket)(old).seq+uint64(len(d.buffer)) > writeIndex {
+				// A newer value already sits in this slot: the reader will
+				// skip (and report) this position, so take a new one.
+				break
+			}
+
+			if atomic.CompareAndSwapPointer(&d.buffer[idx], old, unsafe.Pointer(newBucket)) {
+				return
+			}
+			// The slot changed under us (the reader emptied it or a slower
+			// writer filled it): look at this same position again instead of
+			// abandoning it, which would leave a hole the reader stalls on.
 		}
 
-		return
+		log.Println("Diode set collision: consider using a larger diode")
 	}
 }
 
